@@ -449,6 +449,116 @@ theorem occurrence_values_in_order (P : Prog) (pre post vs : List Str) (name key
     rw [this]
     exact hidle post hpost
 
+/-- **The same for any spelling of the option token**: `t` is whatever the splitter reads, in the mode at hand, as the
+single pair `(name, no attached value)` — `--name`, `-n` in any of the three modes, an alias, a unique abbreviation.
+(With `bundling_rewrite_parse` of C07 this also covers a value-taking letter at the end of a bundle: `-abn v₁ v₂` is
+`-a -b -n v₁ v₂`.) -/
+theorem occurrence_values_in_order_tok (P : Prog) (pre post vs : List Str) (t name key : Str) (oid : Nat) (o' : Opt)
+    (he : (run ext mode P pre).err = none) (hc : (run ext mode P pre).ctx = .idle)
+    (hopt : isOption t mode = ([⟨name, []⟩], true))
+    (hr : resolve (P.node (run ext mode P pre).cur) name = [key])
+    (hl : lookup key (P.node (run ext mode P pre).cur).opts = some oid)
+    (hoid : oid < P.opts.length)
+    (hkind : (P.opt oid).kind ≠ .bool) (hkind2 : (P.opt oid).kind ≠ .incr)
+    (hvs : vs ≠ [])
+    (hroom : (vs.length : Int) ≤ (P.opt oid).max) (hmin : (P.opt oid).min ≤ vs.length)
+    (hacc : AllAcceptable ext mode (P.opt oid) 0 vs)
+    (hs : saveAll ext (P.node 0).mapKeysToLower (matched (run ext mode P pre) oid key) vs = .ok o')
+    (hend : (vs.length : Int) = (P.opt oid).max ∨ post = [] ∨
+      ∃ t rest, post = t :: rest ∧ (looksLikeOption t mode = true ∨ t = dashdash))
+    (hpost : ¬ Mentioned mode P post oid) :
+    (parseArgs ext mode P (pre ++ t :: (vs ++ post))).P.opt oid = o' := by
+  have hsh := run_shape ext mode P pre
+  have hst := run_static_eq ext mode P pre oid
+  unfold parseArgs
+  rw [run_append]
+  simp only [List.foldl_cons, List.foldl_append]
+  generalize run ext mode P pre = s at he hc hr hl hs hsh hst
+  rw [← hsh.1] at hr hl hs
+  have hoid' : oid < s.P.opts.length := by rw [hsh.2]; exact hoid
+  -- the option token opens the occurrence
+  have hne2 : t ≠ dashdash := isOption_true_ne_dashdash mode t _ hopt
+  have hk1 : (s.P.opt oid).kind ≠ .bool := by rw [static_kind hst]; exact hkind
+  have hk2 : (s.P.opt oid).kind ≠ .incr := by rw [static_kind hst]; exact hkind2
+  have hsv : save ext (s.P.node 0).mapKeysToLower (matched s oid key) [] = .ok (matched s oid key) :=
+    save_none_other ext _ _ (by simpa [matched] using hk1) (by simpa [matched] using hk2)
+  have hmaxs : (s.P.opt oid).max = (P.opt oid).max := static_max hst
+  have hmins : (s.P.opt oid).min = (P.opt oid).min := static_min hst
+  have hlenpos : 0 < vs.length := by cases vs with | nil => exact absurd rfl hvs | cons _ _ => simp
+  have hopen : ((([] : List Str).length : Nat) : Int) < (matched s oid key).max := by
+    simp only [matched, List.length_nil, hmaxs]; omega
+  rw [step_head_option ext mode s _ [⟨name, []⟩] he hc hne2 hopt,
+    drain_single_open ext (headState s t) ⟨name, []⟩ key oid (matched s oid key) he hr hl hsv hopen]
+  -- the values are collected
+  have hP : (headState s t).P = s.P := rfl
+  simp only [hP, List.length_nil]
+  have hget : (s.P.setOpt oid (matched s oid key)).opt oid = matched s oid key := opt_setOpt_same s.P oid _ hoid'
+  have hmst : (matched s oid key).static = (P.opt oid).static := hst
+  have hcol := collect ext mode vs
+    { headState s t with P := s.P.setOpt oid (matched s oid key), ctx := .collecting oid 0, pending := [] }
+    oid 0 o' he rfl rfl (by simpa [Prog.setOpt] using hoid')
+    (by show ((0 + vs.length : Nat) : Int) ≤ ((s.P.setOpt oid (matched s oid key)).opt oid).max
+        rw [hget, static_max hmst]; simpa using hroom)
+    hvs
+    (by show AllAcceptable ext mode ((s.P.setOpt oid (matched s oid key)).opt oid) 0 vs
+        rw [hget, allAcceptable_congr ext mode hmst]; exact hacc)
+    (by show saveAll ext ((s.P.setOpt oid (matched s oid key)).node 0).mapKeysToLower
+          ((s.P.setOpt oid (matched s oid key)).opt oid) vs = .ok o'
+        rw [hget]; exact hs)
+  rw [hcol]
+  have hso : o'.static = (P.opt oid).static := (saveAll_static ext _ vs _ o' hs).trans hmst
+  -- what follows cannot touch the option any more
+  have hPfin : ∀ c, ((collected
+      { headState s t with P := s.P.setOpt oid (matched s oid key), ctx := .collecting oid 0, pending := [] }
+      oid 0 vs o').P.opt oid = o') ∧
+      (∀ n, ({ collected
+      { headState s t with P := s.P.setOpt oid (matched s oid key), ctx := .collecting oid 0, pending := [] }
+      oid 0 vs o' with ctx := c }).P.node n = P.node n) := by
+    intro c
+    refine ⟨?_, fun n => ?_⟩
+    · simp only [collected]
+      exact opt_setOpt_same _ oid o' (by simpa [Prog.setOpt] using hoid')
+    · simp only [collected]; exact hsh.1 n
+  generalize hS : collected
+      { headState s t with P := s.P.setOpt oid (matched s oid key), ctx := .collecting oid 0, pending := [] }
+      oid 0 vs o' = S at hPfin
+  have hSctx : S.ctx = if ((0 + vs.length : Nat) : Int) < o'.max then .collecting oid (0 + vs.length) else .idle := by
+    rw [← hS]; rfl
+  have hSpend : S.pending = [] := by rw [← hS]; rfl
+  have hSerr : S.err = none := by rw [← hS]; exact he
+  have hSopt : S.P.opt oid = o' := (hPfin .idle).1
+  have hSnodes : ∀ n, S.P.node n = P.node n := (hPfin S.ctx).2
+  have hidle : ∀ (post : List Str), ¬ Mentioned mode P post oid →
+      (finish ext (post.foldl (step ext mode) { S with ctx := .idle })).P.opt oid = o' := by
+    intro post hnm
+    have := later_unmentioned_keeps ext mode { S with ctx := .idle } post oid
+      (by rw [mentioned_congr mode (P' := S.P) (P := P) hSnodes]; exact hnm) hSpend
+      (fun o i h => by cases h)
+    rw [this]; exact hSopt
+  by_cases hfull : ((0 + vs.length : Nat) : Int) < o'.max
+  · -- the occurrence is still open: it ends by the end of the command line or by a refused token
+    simp only [hfull, ↓reduceIte] at hSctx
+    have hmax' : o'.max = (P.opt oid).max := static_max hso
+    have hmin' : ¬ ((0 + vs.length : Nat) : Int) < (S.P.opt oid).min := by
+      rw [hSopt, static_min hso]; simp only [Nat.zero_add]; omega
+    rcases hend with h | h | ⟨t, rest, h, hr⟩
+    · rw [hmax'] at hfull; simp only [Nat.zero_add] at hfull; omega
+    · subst h
+      simp only [List.foldl_nil]
+      unfold finish
+      simp only [hSerr, hSctx, hmin', Option.isSome_none, Bool.false_eq_true, ↓reduceIte, hSpend, finishDrain]
+      exact hSopt
+    · subst h
+      simp only [List.foldl_cons]
+      rw [refused_as_idle ext mode S oid (0 + vs.length) t hSerr hSctx hSpend hmin' hr]
+      exact hidle (t :: rest) hpost
+  · simp only [hfull, ↓reduceIte] at hSctx
+    have : S = { S with ctx := .idle } := by cases S; simp_all
+    rw [this]
+    exact hidle post hpost
+
+
+
 /-- **The same for an occurrence whose first value is attached** (`--name=v₀ v₁ … vₖ`): the attached value is saved
 first (`o1`), the detached ones follow while they are acceptable, and after the whole parse the record is `saveAll`
 of `v₁ … vₖ` onto `o1` — i.e. `saveAll` of `v₀, v₁ … vₖ` onto what `pre` had left. -/
